@@ -18,7 +18,7 @@ VEL = (2.0e4, 1.0e4, 0.0)
 BMAG = 2.5
 ALPHA, BETA, GAMMA = 0.04, 0.3, 0.2
 MULT = (0.35,)
-ZM = {"p1": -0.02, "p2": 0.02, "sp1": 0.05, "sp2": 0.08, "sm1": -0.05, "sm2": -0.08}
+ZM = {"p1": -0.02, "p2": 0.02, "sp1": 0.05, "sp2": 0.08, "sm1": -0.05, "sm2": -0.08, "sm3": -0.11}
 BEAM_E = 60000.0
 
 
@@ -101,7 +101,7 @@ def build(rec, pol=None):
             return lambda x: v if abs(x - bm) <= 1e-9 * max(bm, 1e-300) else 1.9 * v + 0.3
         zs = ZeemanStructure([(fb(LAM0 + ZM["p1"]), fb(1.0)), (fb(LAM0 + ZM["p2"]), fb(1.0))],
                              [(fb(LAM0 + ZM["sp1"]), fb(2.0)), (fb(LAM0 + ZM["sp2"]), fb(1.0))],
-                             [(fb(LAM0 + ZM["sm1"]), fb(1.0)), (fb(LAM0 + ZM["sm2"]), fb(3.0))])
+                             [(fb(LAM0 + ZM["sm1"]), fb(1.0)), (fb(LAM0 + ZM["sm2"]), fb(2.0)), (fb(LAM0 + ZM["sm3"]), fb(1.0))])
         return ZeemanMultiplet(line, LAM0, sp, p, ad, zs, polarisation=pol), None
     if m == "stark":
         return StarkBroadenedLine(line, LAM0, sp, p, ad, stark_model_coefficients=(3.71e-18, 0.7665, 0.064), polarisation=pol), None
